@@ -12,6 +12,12 @@ Per type there are three kinds of theorem, each for *all* values / byte strings:
 and, from the second one, `…_canonical`: a canonical encoding (= the encoder's image of a
 well-formed value) re-serialises to the identical bytes.
 
+Since the D2a repair (found by C02, `ensure_hashed_area_canonical` in `signature/de.rs`) the signature
+parser refuses a v4 / v6 packet whose *hashed* area would be written back differently from the octets
+read (`Wire.areaParseCanon`), at every nesting level of embedded signatures: `sig_parse_hashed_canonical`,
+`embedded_hashed_canonical`; `parse ∘ ser = id` is unaffected because the serialiser's output is
+canonical (`sig_parse_ser`).  The unhashed area is still normalised on write.
+
 The defects this check confirmed or found (D5b, D5c, N1, N2, N4, N5, N6, N7) are fixed in the
 tree; the model has the fixed forms and the theorems are the full statements.  One deviation is
 left on purpose (N3, trust packets drop their body): the witness `trust_body_dropped` stays.
@@ -196,6 +202,36 @@ theorem sig_reparse (emb : Bytes → Option Bytes) (hemb : ∀ x y, emb x = some
 is idempotent at every bound — by induction on the nesting depth -/
 theorem embedded_normaliser_idempotent (fuel : Nat) (x y : Bytes) (h : sigNorm fuel x = some y) :
     sigNorm fuel y = some y := Wire.sigNorm_idem fuel x y h
+
+/-- the call `ensure_hashed_area_canonical(&hsub, &hsub_raw)?` is present in the v4 and v6 parsers
+(re-extracted on every run): `Wire.areaParseCanon` describes the code -/
+theorem hashed_area_check_present : Gen.sndHashedAreaCanonical = 1 := by decide
+
+/-- **the hashed area is kept as received** (D2a repair, `ensure_hashed_area_canonical`): a v4 / v6
+signature packet parses only if its hashed subpackets write back to exactly the hashed-area octets
+of the packet — no octet of that area is normalised away (boolean octets other than 0/1, notation
+flag octets, MPI bit counts of an embedded signature are refused instead) -/
+theorem sig_parse_hashed_canonical (emb : Bytes → Option Bytes) (b : Bytes) (v6 : Bool) (typ pk hash : Byte)
+    (hashed unhashed : List Subpacket) (left salt : Bytes) (sb : SigBytes)
+    (h : sigParse emb b = some (.v4 v6 typ pk hash hashed unhashed left salt sb)) :
+    areaSer hashed = some (rawHashedArea b) :=
+  Wire.sig_parse_hashed_canonical emb b v6 typ pk hash hashed unhashed left salt sb h
+
+/-- … at every nesting level: an embedded signature is accepted by the normaliser only through the
+same parser, one level down -/
+theorem embedded_hashed_canonical (fuel : Nat) (x y : Bytes) (h : sigNorm (fuel + 1) x = some y) :
+    ∃ s, sigParse (sigNorm fuel) x = some s ∧ sigSer s = some y ∧
+      ∀ v6 typ pk hash hashed unhashed left salt sb, s = .v4 v6 typ pk hash hashed unhashed left salt sb →
+        areaSer hashed = some (rawHashedArea x) := by
+  simp only [sigNorm] at h
+  cases hp : sigParse (sigNorm fuel) x with
+  | none => simp [hp] at h
+  | some s =>
+    simp only [hp] at h
+    refine ⟨s, rfl, h, ?_⟩
+    intro v6 typ pk hash hashed unhashed left salt sb hs
+    subst hs
+    exact Wire.sig_parse_hashed_canonical _ x v6 typ pk hash hashed unhashed left salt sb hp
 
 /-- … so the two theorems above apply to the parser as it runs (`emb = sigNorm n`) -/
 theorem sig_reparse_nested (n : Nat) (b : Bytes) (s : Sig) (h : sigParse (sigNorm n) b = some s) :
